@@ -79,8 +79,8 @@ def judge_labels(lat, cap, origin):
     if want_obj[-1] or want_prop[-1]:
         COL.count('label_on_top')
         nontrivial = True
-    # consequences, checked on the *observed* labels
-    for k, c in enumerate(members):
+    # consequences, checked on the *observed* labels (needs the order matrix: not for big lattices)
+    for k, c in enumerate(members if not sl.big else ()):
         e = 0
         for d in bits(sl.down(k)):
             e |= sh.omask(x for x in members[d].objects if x in sh.oidx)
@@ -210,6 +210,7 @@ def setup(concepts, spec):
 
 
 def cases(tier, seed, spec):
+    yield from gen.biglat(tier)
     yield from gen.ctx_stream(tier, seed)
 
 
@@ -219,6 +220,9 @@ def run_case(concepts, case, spec):
     if ctx is None:
         return
     sh = attach.shadow_of(ctx)
+    if case['fam'].startswith('BIGLAT'):
+        sh.cap_override = 70000
+        COL.count('biglat_cases')
     cap = CAP[spec['tier']]
     sl = sh.lattice(cap)
     lat = common.get_lattice(ctx)
